@@ -13,6 +13,7 @@ import random
 from .. import dbrig, dj, sigs
 
 F_PARAMS = 'F3'
+F_EMBED_OVERWRITES = 'F57'
 
 
 def sval(v):
@@ -269,7 +270,19 @@ def family():
                                          'initial': initial, 'attrs': [list(a) for a in attrs]}
     add = lambda field, initial: {'t': 'AddField', 'model': 'Alpha', 'field': field, 'ftype': 'IntegerField',
                                   'initial': initial, 'attrs': []}
+    def add_sql(field, ftype, sql, value, *attrs):
+        # the initial value is a callable returning SQL text; `value` is what that SQL evaluates to
+        return {'t': 'AddField', 'model': 'Alpha', 'field': field, 'ftype': ftype, 'initial': value,
+                'initial_sql': sql, 'attrs': [list(a) for a in attrs]}
+
+    def cf_sql(field, sql, value, *attrs):
+        return dict(cf(field, value, *attrs), initial_sql=sql)
     cases = [
+        [add_sql('tag', 'CharField', "'n/a'", '"n/a"', ('max_length', '20')), cf('qty', '0', ('null', 'false'))],
+        [add_sql('seq', 'IntegerField', '40 + 2', '42'), add('extra', '7'), cf('score', '-1', ('null', 'false'))],
+        [cf('qty', '0', ('null', 'false')), add_sql('seq', 'IntegerField', '40 + 2', '42'),
+         cf('note', '"none"', ('null', 'false'))],
+        [cf_sql('qty', '1 + 1', '2', ('null', 'false')), cf('score', '-1', ('null', 'false'))],
         [cf('note', '"n/a"', ('max_length', '50'))],
         [cf('code', '"NONE"', ('unique', 'true'))],
         [cf('qty', '5', ('db_index', 'true'))],
@@ -374,6 +387,14 @@ def judge_rows(sig0, muts, before, after):
     return problems
 
 
+def embedded_not_null(rep):
+    """finding F57: every difference is a changed existing value in a column that a ChangeField(null=False)
+    with a callable initial value (SQL text to embed) made NOT NULL"""
+    cols = ['vapp_%s.%s changed from ' % (m['model'].lower(), m['field']) for m in rep['mutations']
+            if m['t'] == 'ChangeField' and m.get('initial_sql') is not None and ['null', 'false'] in m['attrs']]
+    return bool(cols) and all(any(p.startswith(c) for c in cols) for p in rep['problems'])
+
+
 def multi_param(muts):
     """>= 2 bound-parameter initials on one model (possible mis-binding, finding F3)"""
     per = {}
@@ -444,7 +465,8 @@ def run(ctx):
         ctx.count('general:cases')
         if rep['problems']:
             ctx.count('general:problems_stepwise')
-            ctx.fail(None, 'row data is not preserved (one mutation at a time): %s' % rep['problems'][0], rep)
+            ctx.fail(F_EMBED_OVERWRITES if embedded_not_null(rep) else None,
+                     'row data is not preserved (one mutation at a time): %s' % rep['problems'][0], rep)
         pb = rep.get('problems_batched', [])
         if pb and pb != rep['problems']:
             ctx.count('general:problems_batched_only')
